@@ -570,7 +570,18 @@ pub fn families(prop: &str, tier: Tier) -> Vec<Cfg> {
             d.max_conns = 2;
             d.max_reqs = 3;
             d.dev = if q { 2 } else { 3 };
-            vec![a, b, c, d]
+            // partial writes with no inbound traffic that could tear the stream and force a reconnect:
+            // whatever was half written must be finished by the session itself
+            let mut e = Cfg::base("C16-partial-writes-quiet-broker");
+            e.props = vec!["C16"];
+            e.ops = vec![OpK::Pub1, OpK::Pub2, OpK::Sub, OpK::Unsub, OpK::Poll, OpK::Drive];
+            e.io = IoMenu::partial();
+            e.cancel = true;
+            e.max_ops = if q { 5 } else { 6 };
+            e.max_conns = 1;
+            e.max_reqs = 3;
+            e.dev = 2;
+            vec![a, b, c, d, e]
         }
         "C18" => {
             let mut a = Cfg::base("C18-status-after-every-step");
